@@ -362,10 +362,12 @@ def ptL (bad : Nat → Bool) : List T → List T
       ++ ptL bad cs
 end
 
-/-- tail shared by the pruning routines: `suppress_unifurcations()` then `update_bipartitions()` (default flags) -/
+/-- tail shared by the pruning routines: `suppress_unifurcations()` if asked, then
+`update_bipartitions(suppress_unifurcations=suppress_unifurcations)` if asked (the caller's setting is passed on;
+the basal-bifurcation collapse keeps its default) -/
 def finish (suppress ub : Bool) (s : St) : St :=
   let s1 : St := if suppress then { s with t := sup s.t } else s
-  if ub then encodeStruct true true s1 else s1
+  if ub then encodeStruct suppress true s1 else s1
 
 /-- `prune_leaves_without_taxa(recursive, update_bipartitions, suppress_unifurcations)` -/
 def pruneNoTaxa (recursive ub suppress : Bool) (s : St) : St :=
@@ -390,10 +392,22 @@ def filterLeaves (keepIds : List Nat) (recursive ub suppress : Bool) (s : St) : 
   | .error e => .error e
   | .ok t1 => .ok (finish suppress ub { s with t := t1 })
 
+/-- the removal loop of `prune_subtree`: detach `c`, then every ancestor (short of the seed) left without a child -/
+def pruneUp : Nat → Nat → T → T
+  | 0, c, t => splice c (fun _ => []) t
+  | f + 1, c, t =>
+    match parentOf c t with
+    | none => t
+    | some p =>
+      let t1 := splice c (fun _ => []) t
+      match t1.find? p with
+      | some n => if n.cs.isEmpty && p != t.id then pruneUp f p t1 else t1
+      | none => t1
+
 /-- `prune_subtree(node, update_bipartitions, suppress_unifurcations)` -/
 def pruneSubtree (c : Nat) (ub suppress : Bool) (s : St) : Except Err St :=
   if c == s.t.id then .error .typeError else
-  .ok (finish suppress ub { s with t := splice c (fun _ => []) s.t })
+  .ok (finish suppress ub { s with t := pruneUp s.t.size c s.t })
 
 /-! ## re-ordering -/
 
